@@ -322,16 +322,22 @@ func HarnessC03Names() {
 	mask := verifMask(d.n)
 	eq := func(c, v string) Expression { return &ExprEqual{Column: c, Value: v} }
 	type nq struct {
-		e   Expression
-		den uint64
+		e       Expression
+		den     uint64
+		wantErr bool // names a column that occurs in no row: an error, every time
 	}
 	qs := []nq{
-		{&ExprAnd{Exprs: []Expression{eq("a", "a0"), eq("b", "b0")}}, sa & sb},
-		{&ExprAnd{Exprs: []Expression{eq(odd, "b0")}}, so},
-		{&ExprOr{Exprs: []Expression{eq("a", "a0"), eq("b", "b0")}}, sa | sb},
-		{&ExprOr{Exprs: []Expression{eq(odd, "b0")}}, so},
-		{&ExprNot{Expr: &ExprAnd{Exprs: []Expression{eq("a", "a0"), eq("b", "b0")}}}, ^(sa & sb) & mask},
-		{&ExprNot{Expr: &ExprAnd{Exprs: []Expression{eq(odd, "b0")}}}, ^so & mask},
+		{&ExprAnd{Exprs: []Expression{eq("a", "a0"), eq("b", "b0")}}, sa & sb, false},
+		{&ExprAnd{Exprs: []Expression{eq(odd, "b0")}}, so, false},
+		{&ExprOr{Exprs: []Expression{eq("a", "a0"), eq("b", "b0")}}, sa | sb, false},
+		{&ExprOr{Exprs: []Expression{eq(odd, "b0")}}, so, false},
+		{&ExprNot{Expr: &ExprAnd{Exprs: []Expression{eq("a", "a0"), eq("b", "b0")}}}, ^(sa & sb) & mask, false},
+		{&ExprNot{Expr: &ExprAnd{Exprs: []Expression{eq(odd, "b0")}}}, ^so & mask, false},
+		// a failing evaluation must not leave anything in the cache that a later evaluation of
+		// the same (or an enclosing) expression is answered from
+		{&ExprOr{Exprs: []Expression{eq("a", "a0"), eq("nosuch", "x")}}, 0, true},
+		{&ExprAnd{Exprs: []Expression{eq("a", "a0"), eq("nosuch", "x")}}, 0, true},
+		{&ExprNot{Expr: &ExprOr{Exprs: []Expression{eq("b", "b0"), eq("nosuch", "x")}}}, 0, true},
 	}
 	var cache Cache = NewLRUCache(^uint64(0))
 	if verifBool("keep-cache") {
@@ -341,6 +347,10 @@ func HarnessC03Names() {
 	for i := 0; i < 2; i++ {
 		q := qs[verifChoice("query", len(qs))]
 		res, err := idx.Execute(&Query{Expr: q.e})
+		if q.wantErr {
+			verifAssert(err != nil && res == nil, "C03: a query naming an unknown column was answered (from the cache) instead of failing like on a cache-less index")
+			continue
+		}
 		verifAssert(err == nil, "C03 names: query returned an error")
 		if err != nil {
 			return
